@@ -309,7 +309,12 @@ def _printed_shard(seed, n):
         if len(ps) >= 2 and all(NAN not in m_distance(t, a, b) for a in ps for b in ps):
             buf = io.StringIO()
             with core.Scratch("c07") as d:
-                report.clustering(os.path.join(d, "dendrogram.png"), dict(t), stream=buf)
+                try:
+                    report.clustering(os.path.join(d, "dendrogram.png"), dict(t), stream=buf)
+                except Exception as e:
+                    # all pairwise distances are defined here, so the report has no excuse
+                    vs.append(make_violation(f"clustering:exception:{type(e).__name__}", {"table": table_json(t)}, "distance matrix printed", f"{type(e).__name__}: {e}"))
+                    return vs
             rows = [ln for ln in buf.getvalue().splitlines() if ln.startswith("│")]
             got = {}
             for ln in rows[1:]:
